@@ -19,6 +19,10 @@ What is transcribed
 * `random.randint(0, 25)` is a list of letters handed to the operation; the loop is structural
   in that list and returns `needLetters` when it runs dry (the theorem
   `C47_autoname_terminates_fresh` bounds how many it can need).
+* `Framer.prune()` (reached by `raze`) ends with `self.store.house.assignRegistries()` (repair D47a;
+  recorded as its own event) and `if self.name in Framer.Names and Framer.Names[self.name] == self:
+  del Framer.Names[self.name]`: operation `prune k` looks the framer up in the namespace that is
+  current for Framer and removes it only if that entry is this very instance.
 * `House.__init__` registers the house, allocates its three dicts and then creates
   `Store(name = house.name)` in the CURRENT store registry; if that raises, the exception leaves
   the constructor with the house already registered.
@@ -58,6 +62,11 @@ def Cls.preface : Cls → Str
 abbrev Dict := List (Str × Nat)
 
 def dkeys (d : Dict) : List Str := d.map Prod.fst
+
+/-- `del d[k]` -/
+def derase : Dict → Str → Dict
+  | [], _ => []
+  | (k', v) :: rest, k => if k' = k then rest else (k', v) :: derase rest k
 
 def dget (d : Dict) (k : Str) : Option Nat :=
   match d with
@@ -163,6 +172,23 @@ def clear (s : St) (cls : Cls) : St :=
   let d := s.nextDict
   setCounter (setNames { s with nextDict := d + 1 } d cls) 0 cls
 
+def findInst (l : List Inst) (i : Nat) : Option Inst :=
+  match l with
+  | [] => none
+  | r :: rest => if r.id = i then some r else findInst rest i
+
+/-- `if self.name in Framer.Names and Framer.Names[self.name] == self: del Framer.Names[self.name]`
+for the framer instance `i` (its name is in the ghost record; an instance without a record is
+registered nowhere) -/
+def unregister (s : St) (i : Nat) : St :=
+  match findInst s.insts i with
+  | none => s
+  | some r =>
+    let d := getNames s (.sub .framer)
+    if dget (s.heap d) r.name = some i then
+      { setHeap s d (derase (s.heap d) r.name) with insts := s.insts.filter (fun x => x.id != i) }
+    else s
+
 /-- `self.frameNames = odict()` of a new framer `i` -/
 def allocFramer (s : St) (i : Nat) : St :=
   { s with nextDict := s.nextDict + 1, framerDicts := s.framerDicts ++ [(i, s.nextDict)] }
@@ -179,6 +205,7 @@ inductive Op where
   | clearRegistries                                        -- `housing.ClearRegistries()`
   | assignRegistries (k : Nat)          -- of the k-th house ever registered
   | assignFrameRegistry (k : Nat)       -- of the k-th framer ever registered
+  | prune (k : Nat)                     -- the name-registry part of `Framer.prune()` of the k-th framer
 
 inductive Out where
   | name (n : Str) (inst : Nat)
@@ -217,6 +244,10 @@ def step (s : St) : Op → St × Out
     match s.framerDicts[f]? with
     | none => (s, .noSuch)
     | some (_, d) => (setCounter (setNames s d (.root .frame)) 0 (.root .frame), .unit)
+  | .prune f =>
+    match s.framerDicts[f]? with
+    | none => (s, .noSuch)
+    | some (i, _) => (unregister s i, .unit)
 
 def run : St → List Op → St
   | s, [] => s
